@@ -167,6 +167,11 @@ def full_unit(cls):
         P.oblige('K2 %s: consumed length n <= len(buffer)' % name, ne <= buf.n)
         if is_framing(cls):
             P.oblige('K2 %s: a framing unit consumes at least one byte' % name, ne >= 1)
+        from contracts import nested
+        if cls in nested.ITEM_CLASSES:
+            # guarantee side of the assumption made wherever this class is parsed as a vector item
+            P.oblige('K2i %s: as a vector item it consumes at least one byte of a non-empty buffer' % name,
+                     z3.Implies(buf.n > 0, ne >= 1))
     return explore_parse(cls, on_path)
 
 
